@@ -1,11 +1,28 @@
 // C07 harness: trainer-level runs of the kernel SVM trainers; prints coefficients, bias and
-// solutionProperties for every configuration.  Public API only.
+// solutionProperties for every configuration, and (extension) the quadratic program the REAL
+// trainer built, observed at the moment it enters QpSolver::solve.
 // case line:
 //   T id trainer bias shrink prec cachesize cachetype kernel gamma Cneg Cpos eps param n d warm  y_0..  x_00..  [w_0..]
-//     trainer csvm | csvmw (weighted) | epssvr | oneclass      cachetype f|d     param: epsilon (epssvr) or nu (oneclass)
+//     trainer csvm | csvmw (weighted) | csvmu (unconstrained = log-encoded regularisation parameters: the fields
+//             Cneg Cpos then hold log C-, log C+ and are set through setParameterVector) | epssvr | oneclass
+//     cachetype f|d     param: epsilon (epssvr) or nu (oneclass)
 //     y: class labels (csvm*), real targets as hex doubles (epssvr), ignored (oneclass); weights only for csvmw
 //     warm 1: train once with accuracy 0.1, then again (same model object => warm start) with eps
-// output:  R id type iterations value accuracy nbias bias nalpha alpha_0 .. | EXC msg
+//     warm 2: as 1, but the first training uses 4*C-, 4*C+ (the old coefficients leave the new box: the clipping matters)
+//     Cneg == Cpos: the one-regulariser constructor is used, otherwise the two-regulariser one
+// output:
+//   Q id k dims lin_0.. lo_0.. hi_0.. alpha0_0..     the problem as QpSolver::solve receives it (k-th solve of the case)
+//   M id k dims e_00 ..                               quadratic().entry(i,j) as the solver sees it (epssvr only)
+//   F id k dims alpha_0..                             unpermuted alpha when that solve returns
+//   W id n a_0..                                      model coefficients between the two trainings of a warm case
+//   R id type iterations value accuracy nbias bias nalpha alpha_0 .. | EXC msg
+//
+// How the trainer's own problem object is reached without touching /repo: the trainers create
+// `QpSolver<ProblemType> solver(problem)` with the default selection strategy.  This TU partially
+// specialises QpSolver for the two default strategies (LibSVMSelectionCriterion: SvmProblem,
+// MaximumGainCriterion: BoxConstrainedProblem); the specialisation prints the problem and then
+// runs the UNCHANGED primary template with a selection strategy that merely derives from the
+// default one (identical behaviour).
 #include <cstdio>
 #include <cstdlib>
 #include <string>
@@ -18,6 +35,64 @@
 #include <shark/Models/Kernels/LinearKernel.h>
 #include <shark/Models/Kernels/GaussianRbfKernel.h>
 #include <shark/Data/WeightedDataset.h>
+
+static std::string g_id; static int g_k = 0; static bool g_matrix = false;
+
+namespace shark {
+struct C07LibSVMSelection : LibSVMSelectionCriterion {};
+struct C07MaximumGain : MaximumGainCriterion {};
+
+template<class P> void c07_dump_problem(P& p) {
+	std::size_t n = p.dimensions();
+	std::printf("Q %s %d %zu", g_id.c_str(), g_k, n);
+	// at entry nothing is shrunk; print in the order of the ORIGINAL variables anyway
+	std::vector<std::size_t> inv(n); for (std::size_t i = 0; i < n; i++) inv[p.permutation(i)] = i;
+	for (std::size_t i = 0; i < n; i++) std::printf(" %a", p.linear(inv[i]));
+	for (std::size_t i = 0; i < n; i++) std::printf(" %a", p.boxMin(inv[i]));
+	for (std::size_t i = 0; i < n; i++) std::printf(" %a", p.boxMax(inv[i]));
+	for (std::size_t i = 0; i < n; i++) std::printf(" %a", p.alpha(inv[i]));
+	std::printf("\n");
+	if (g_matrix) {
+		std::printf("M %s %d %zu", g_id.c_str(), g_k, n);
+		for (std::size_t i = 0; i < n; i++) for (std::size_t j = 0; j < n; j++) std::printf(" %a", (double)p.quadratic().entry(inv[i], inv[j]));
+		std::printf("\n");
+	}
+}
+template<class P> void c07_dump_final(P& p) {
+	RealVector a = p.getUnpermutedAlpha();
+	std::printf("F %s %d %zu", g_id.c_str(), g_k, a.size());
+	for (std::size_t i = 0; i < a.size(); i++) std::printf(" %a", a(i));
+	std::printf("\n");
+	g_k++;
+}
+
+template<class Problem>
+class QpSolver<Problem, LibSVMSelectionCriterion> {
+public:
+	QpSolver(Problem& problem) : m_problem(problem) {}
+	void solve(QpStoppingCondition& stop, QpSolutionProperties* prop = NULL) {
+		c07_dump_problem(m_problem);
+		QpSolver<Problem, C07LibSVMSelection> inner(m_problem);
+		inner.solve(stop, prop);
+		c07_dump_final(m_problem);
+	}
+protected:
+	Problem& m_problem;
+};
+template<class Problem>
+class QpSolver<Problem, MaximumGainCriterion> {
+public:
+	QpSolver(Problem& problem) : m_problem(problem) {}
+	void solve(QpStoppingCondition& stop, QpSolutionProperties* prop = NULL) {
+		c07_dump_problem(m_problem);
+		QpSolver<Problem, C07MaximumGain> inner(m_problem);
+		inner.solve(stop, prop);
+		c07_dump_final(m_problem);
+	}
+protected:
+	Problem& m_problem;
+};
+}
 
 using namespace shark;
 
@@ -47,20 +122,48 @@ void report(Cfg const& c, Trainer& t, KernelExpansion<RealVector> const& f) {
 	std::printf("\n");
 }
 
+void between(Cfg const& c, KernelExpansion<RealVector> const& f) {
+	std::printf("W %s %zu", c.id.c_str(), f.alpha().size1());
+	for (std::size_t i = 0; i < f.alpha().size1(); i++) std::printf(" %a", f.alpha()(i, 0));
+	std::printf("\n");
+}
+
 template<class CacheT>
 void runCsvm(Cfg const& c, AbstractKernelFunction<RealVector>* k) {
 	std::vector<unsigned int> lab(c.n); for (std::size_t i = 0; i < c.n; i++) lab[i] = (unsigned int)c.y[i];
 	LabeledData<RealVector, unsigned int> data = createLabeledDataFromRange(c.x, lab);
 	KernelClassifier<RealVector> svm;
-	CSvmTrainer<RealVector, CacheT> t(k, c.Cneg, c.Cpos, c.bias != 0);
+	bool unc = c.trainer == "csvmu";
+	bool one = c.Cneg == c.Cpos;
+	// csvmu: construct with C = 1 and set the log-encoded parameters through the parameter interface
+	typedef CSvmTrainer<RealVector, CacheT> TrainerT;
+	std::unique_ptr<TrainerT> tp(one ? new TrainerT(k, unc ? 1.0 : c.Cneg, c.bias != 0, unc)
+	                                 : new TrainerT(k, unc ? 1.0 : c.Cneg, unc ? 1.0 : c.Cpos, c.bias != 0, unc));
+	TrainerT& t = *tp;
+	if (unc) {
+		RealVector kp = k->parameterVector();
+		RealVector pv(kp.size() + (one ? 1 : 2));
+		for (std::size_t i = 0; i < kp.size(); i++) pv(i) = kp(i);
+		pv(kp.size()) = c.Cneg; if (!one) pv(kp.size() + 1) = c.Cpos;
+		t.setParameterVector(pv);
+	}
+	RealVector reg = t.regularizationParameters();
 	if (c.trainer == "csvmw") {
 		WeightedLabeledData<RealVector, unsigned int> wd(data, 1.0);
 		std::size_t i = 0;
 		for (auto it = wd.weights().elements().begin(); it != wd.weights().elements().end(); ++it, ++i) *it = c.w[i];
-		if (c.warm) { configure(t, c, 0.1); t.train(svm, wd); }
+		if (c.warm) {
+			if (c.warm == 2) t.setRegularizationParameters(4.0 * reg);
+			configure(t, c, 0.1); t.train(svm, wd); between(c, svm.decisionFunction());
+			if (c.warm == 2) t.setRegularizationParameters(reg);
+		}
 		configure(t, c, c.eps); t.train(svm, wd);
 	} else {
-		if (c.warm) { configure(t, c, 0.1); t.train(svm, data); }
+		if (c.warm) {
+			if (c.warm == 2) t.setRegularizationParameters(4.0 * reg);
+			configure(t, c, 0.1); t.train(svm, data); between(c, svm.decisionFunction());
+			if (c.warm == 2) t.setRegularizationParameters(reg);
+		}
 		configure(t, c, c.eps); t.train(svm, data);
 	}
 	report(c, t, svm.decisionFunction());
@@ -70,13 +173,15 @@ void runCase(Cfg const& c) {
 	std::unique_ptr<AbstractKernelFunction<RealVector> > kernel;
 	if (c.kernel == "lin") kernel.reset(new LinearKernel<RealVector>());
 	else kernel.reset(new GaussianRbfKernel<RealVector>(c.gamma));
-	if (c.trainer == "csvm" || c.trainer == "csvmw") {
+	g_id = c.id; g_k = 0; g_matrix = false;
+	if (c.trainer == "csvm" || c.trainer == "csvmw" || c.trainer == "csvmu") {
 		if (c.ctype == "f") runCsvm<float>(c, kernel.get()); else runCsvm<double>(c, kernel.get());
 	} else if (c.trainer == "epssvr") {
 		std::vector<RealVector> lab(c.n, RealVector(1)); for (std::size_t i = 0; i < c.n; i++) lab[i](0) = c.y[i];
 		LabeledData<RealVector, RealVector> data = createLabeledDataFromRange(c.x, lab);
 		KernelExpansion<RealVector> f;
 		EpsilonSvmTrainer<RealVector, double> t(kernel.get(), c.Cpos, c.param);
+		g_matrix = true;
 		configure(t, c, c.eps); t.train(f, data);
 		report(c, t, f);
 	} else {
